@@ -55,7 +55,9 @@ ASSUMPTIONS = ['A1: after process death the file system holds the effect of a pr
                'atomic (B = infinity); for v2 any B divisible by 8 is proved equivalent (entries never straddle)',
                'rename, unlink, symlink, link, O_EXCL create are atomic',
                'symlink chains do not occur (single colour files are regular files)',
-               'tile locations are not temp names (checked on every generated location by is_tmp_name)']
+               'tile locations are not temp names (checked on every generated location by is_tmp_name)',
+               'write_atomic never creates a world-writable file (mode 0o664 whatever the umask): checked on every traced store, '
+               'also with umask 000; creation modes are part of the replayed crash states']
 EXPLANATION = ('crash safety proved for every crash point of the modelled writers; the order of the real raw writes is pinned by '
                'the correspondence; every raw prefix of every generated history is replayed against the real readers')
 
@@ -196,6 +198,19 @@ class Env(object):
             return proxy_cls.rename(tr.proxy, src, dst, **kw)
         self.tr.proxy.rename = rename
         self.tr.proxy.replace = rename
+        # the permission bits a file is created with (open mode and the umask of the process) belong to the crash
+        # state: ProgressStore.load ignores a world-writable progress file
+        self.modes = {}
+
+        def os_open(path, flags, mode=0o777, **kw):
+            fd = proxy_cls.open(tr.proxy, path, flags, mode, **kw)
+            if flags & os.O_CREAT:
+                try:
+                    self.modes[tr.rel(path)] = os.fstat(fd).st_mode & 0o7777
+                except OSError:
+                    pass
+            return fd
+        self.tr.proxy.open = os_open
         # file copies by shutil are made of raw writes too
         self.saved_shutil = []
         for mod in fstrace.store_modules():
@@ -209,6 +224,15 @@ class Env(object):
             mod.random = val
         for mod, val in self.saved_shutil:
             mod.shutil = val
+
+    def apply_op(self, root, op, cut=None):
+        self.fstrace.apply_op(root, op, cut=cut)
+        if op[0] == 'create' and op[1] in self.modes and not os.path.isabs(op[1]):
+            os.chmod(os.path.join(root, op[1]), self.modes[op[1]])
+
+    def replay(self, ops, root):
+        for op in ops:
+            self.apply_op(root, op)
 
     def traced(self, fn):
         """run fn() with tracing; returns (ops, exception type name or None)."""
@@ -314,10 +338,10 @@ class CrashWalk(object):
             if op[0] == 'write':
                 for c in cuts_for(i, op):
                     fstrace.copy_tree(cur, torn)
-                    fstrace.apply_op(torn, op, cut=c)
+                    self.env.apply_op(torn, op, cut=c)
                     self.n += 1
                     yield i, c, torn
-            fstrace.apply_op(cur, op)
+            self.env.apply_op(cur, op)
         for d in (cur, torn, cur + '.outside', torn + '.outside'):
             shutil.rmtree(d, ignore_errors=True)
 
@@ -474,7 +498,7 @@ def scen_file(ctx, mode, nsteps, out, perms=False, script=()):
             chk = os.path.join(root, 'chk')
             env.fstrace.copy_tree(pre_dir, chk)
             try:
-                env.fstrace.replay(raw, chk)
+                env.replay(raw, chk)
                 same = strip_nlink(snapshot(chk)) == strip_nlink(snapshot(cdir))
             except Exception as e:
                 same = False
@@ -555,9 +579,9 @@ def scen_file(ctx, mode, nsteps, out, perms=False, script=()):
                     cut = rng.randrange(len(raw[k][3]))
                 env.rnd.new_process()
                 env.fstrace.copy_tree(pre_dir, cdir)
-                env.fstrace.replay(raw[:k], cdir)
+                env.replay(raw[:k], cdir)
                 if cut is not None:
-                    env.fstrace.apply_op(cdir, raw[k], cut=cut)
+                    env.apply_op(cdir, raw[k], cut=cut)
                 ctx.count('file:history-continues-from-crash-state')
                 for p in snapshot(cdir):
                     if TMP_TAG in p:
@@ -595,7 +619,7 @@ ATOMIC_CHECKER = (
     "forallb (fun o => let '(k, cut, r) := o in rres_eqb (read_path (crash_state_at s ops k cut) p) r) obs")
 
 
-def scen_atomic(ctx, kind, nsteps, out, perms=False):
+def scen_atomic(ctx, kind, nsteps, out, perms=False, umask0=False):
     """LegendCache.store / ProgressStore.write: plain write_atomic of one file."""
     rng = ctx.rng
     root = ctx.tmpdir('wa')
@@ -603,6 +627,9 @@ def scen_atomic(ctx, kind, nsteps, out, perms=False):
     os.makedirs(cdir)
     env = Env(ctx, cdir)
     env.tr.enabled = False
+    # configuration: the process runs with umask 000 (whatever mode the code asks for is what the file gets)
+    old_umask = os.umask(0) if umask0 else None
+    ctx.count('atomic:%s:umask=%s' % (kind, '000' if umask0 else 'inherited'))
     try:
         if kind == 'legend':
             from mapproxy.cache.legend import LegendCache, Legend, legend_hash
@@ -652,9 +679,16 @@ def scen_atomic(ctx, kind, nsteps, out, perms=False):
             if stale and rng.random() < 0.7:
                 env.rnd.force = int(stale[0][len(rel + TMP_TAG):])
             env.rnd.used = []
+            env.modes.clear()
             raw, exc = env.traced(fn)
             env.rnd.force = None
             new = reader(cdir)
+            ww = sorted(q for q, m in env.modes.items() if m & 0o002)
+            if ww:
+                # the model has no permission bits: it relies on write_atomic never creating a world-writable file
+                # (mode 0o664), which keeps the S_IWOTH branch of ProgressStore.load dead for files the store wrote
+                ctx.problem('correspondence', 'atomic:%s: a world-writable file is created (%s): the permission-free '
+                            'model of the readers does not cover it' % (kind, ww[0]), None)
             sfx = str(env.rnd.used[0]) if env.rnd.used else '0'
             canon, ccoords, base = canon_ops(raw)
             rep = {'writer': kind, 'pre_state': {p: (n[0], n[1].hex() if n[0] == 'file' else n[1]) for p, n in pre.items()},
@@ -703,13 +737,15 @@ def scen_atomic(ctx, kind, nsteps, out, perms=False):
                 k = rng.randrange(len(raw) + 1)
                 env.rnd.new_process()
                 env.fstrace.copy_tree(pre_dir, cdir)
-                env.fstrace.replay(raw[:k], cdir)
+                env.replay(raw[:k], cdir)
                 if k < len(raw) and raw[k][0] == 'write' and len(raw[k][3]) > 1:
-                    env.fstrace.apply_op(cdir, raw[k], cut=rng.randrange(len(raw[k][3])))
+                    env.apply_op(cdir, raw[k], cut=rng.randrange(len(raw[k][3])))
                 for p in snapshot(cdir):
                     if TMP_TAG in p:
                         stale_tmp = (p, int(p[p.rindex(TMP_TAG) + len(TMP_TAG):]))
     finally:
+        if old_umask is not None:
+            os.umask(old_umask)
         env.close()
 
 
@@ -976,7 +1012,7 @@ def scen_compact(ctx, version, nsteps, out, big=False, perms=False):
             chk = os.path.join(root, 'chk')
             env.fstrace.copy_tree(pre_dir, chk)
             try:
-                env.fstrace.replay(raw, chk)
+                env.replay(raw, chk)
                 a, b2 = strip_nlink(snapshot(chk)), strip_nlink(snapshot(cdir))
                 a = {p: n for p, n in a.items() if not p.endswith('.lck')}
                 b2 = {p: n for p, n in b2.items() if not p.endswith('.lck')}
@@ -1160,9 +1196,9 @@ def scen_compact(ctx, version, nsteps, out, big=False, perms=False):
                         and not is_index_write(raw[k]):
                     cut = rng.randrange(1, len(raw[k][3]))
                 env.fstrace.copy_tree(pre_dir, cdir)
-                env.fstrace.replay(raw[:k], cdir)
+                env.replay(raw[:k], cdir)
                 if cut is not None:
-                    env.fstrace.apply_op(cdir, raw[k], cut=cut)
+                    env.apply_op(cdir, raw[k], cut=cut)
                 applied = [bundle_ops[n] for n, i in enumerate(inplace) if i < k]
                 if cut is not None and k in inplace:
                     o = bundle_ops[inplace.index(k)]
@@ -1263,7 +1299,8 @@ def run(ctx):
     mark('file-scenarios')
     for kind in ('legend', 'progress'):
         for rep in range(ctx.n(2, 4)):
-            guarded('%s/%d' % (kind, rep), scen_atomic, ctx, kind, ctx.n(5, 10), out, perms=(rep % 2 == 1))
+            guarded('%s/%d' % (kind, rep), scen_atomic, ctx, kind, ctx.n(5, 10), out, perms=(rep % 2 == 1),
+                    umask0=(rep % 2 == (0 if kind == 'progress' else 1)))
     mark('atomic-scenarios')
     for version in (2, 1):
         for rep in range(ctx.n(3, 12)):
